@@ -220,7 +220,12 @@ def conflict_spelling(kind):
         cfg["filename"] = "all_mocks.go"
         cfg["pkgname"] = "shared"
         cfg["force-file-write"] = True   # with overwriting enabled nothing but the conflict check stands between the two mocks and one lost file
-        spell = {"rel-abs": ("shared", "{{.ConfigDir}}/shared"), "dot": ("shared", "./shared/"), "updown": ("shared", "shared/x/..")}[kind]
+        spell = {"rel-abs": ("shared", "{{.ConfigDir}}/shared"), "dot": ("shared", "./shared/"), "updown": ("shared", "shared/x/.."),
+                 # one directory reached directly and through a symbolic link (the link exists; below it a directory that does not exist yet)
+                 "symlink": ("shared", "via/link"), "symlink-deeper": ("shared/gen/x", "via/link/gen/x")}[kind]
+        if kind.startswith("symlink"):
+            files["shared/.keep"] = ""
+            files["via/link"] = ("symlink", "../shared")
         cfg["dir"] = spell[0]
         for k in (MOD + "/p3",):
             cfg["packages"].setdefault(k, {"config": {"all": True}})
@@ -372,6 +377,8 @@ INVALID = {
     "one-file-two-source-packages-relative-vs-absolute-dir": (["root"], conflict_spelling("rel-abs")),
     "one-file-two-source-packages-dot-slash-dir": (["root"], conflict_spelling("dot")),
     "one-file-two-source-packages-updown-dir": (["root"], conflict_spelling("updown")),
+    "one-file-two-source-packages-through-symlinked-dir": (["root"], conflict_spelling("symlink")),
+    "one-file-two-source-packages-below-symlinked-dir": (["root"], conflict_spelling("symlink-deeper")),
     "one-file-two-pkgnames": (["root"], conflict("pkgname")),
     "one-file-two-templates": (["root"], conflict("template")),
     "no-packages-key": (["root"], inj_no_packages),
